@@ -1,6 +1,6 @@
 import Rtsp.Proofs.TimeDecRef
 import Rtsp.Proofs.Ntp
-import Rtsp.Proofs.SenderReport
+import Rtsp.Proofs.SenderReportHist
 /-
 C15 — timestamps: 64-bit PTS continuation and NTP mapping.
 
@@ -23,8 +23,12 @@ open Rtsp Rtsp.TimeDec
 theorem facts_shape :
     Facts.Time.encFractionExpr = true ∧ Facts.Time.encCombineExpr = true ∧ Facts.Time.decNanosExpr = true ∧
     Facts.Time.signedDeltaExpr = true ∧ Facts.Time.mulDivExpr = true ∧ Facts.Time.senderRtpExpr = true ∧
-    Facts.Time.receiverDiffExpr = true ∧ Facts.Time.ntpEpochOffsetEnc = Facts.Time.ntpEpochOffsetDec ∧
-    Facts.Time.nanosPerSecEnc = 1000000000 := by decide
+    Facts.Time.receiverDiffExpr = true ∧ Facts.Time.senderNtpExpr = true ∧ Facts.Time.receiverDecodeAddExpr = true ∧
+    Facts.Time.ntpEpochOffsetEnc = Facts.Time.ntpEpochOffsetDec ∧ Facts.Time.nanosPerSecEnc = 1000000000 ∧
+    -- the users: Client/ServerSession.PacketPTS and PacketNTP are these functions, sender reports reach the receiver
+    Facts.Time.clientPacketPTSExpr = true ∧ Facts.Time.clientPacketNTPExpr = true ∧
+    Facts.Time.serverPacketPTSExpr = true ∧ Facts.Time.serverPacketNTPExpr = true ∧
+    Facts.Time.clientProcessSRExpr = true ∧ Facts.Time.serverProcessSRExpr = true := by decide
 
 /-! ## PTS: 64-bit continuation of the 32-bit RTP timestamps
 
@@ -248,5 +252,43 @@ example :
     SR.floatTicks (6000000000 - s.lastSystem) s.rate = 90000 ∧
     ((SR.Recv.init 90000).processSR (s.reportWith 6000000000 90000).ntp (s.reportWith 6000000000 90000).rtp).packetNTP 4
       = some 1700000000000111112 := by decide
+
+/-! ### all interleavings of packets and sender reports -/
+
+/-- after any history of `ProcessPacket` calls the sender's reference `(lastRTP, lastNTP, lastSystem)` is
+that of the latest packet with PTS = DTS -/
+theorem sender_reference_is_last_eq_packet (s : SR.Sender) (ps : List SR.Pkt) (p : SR.Pkt)
+    (hp : SR.lastEq ps = some p) :
+    (s.feed ps).lastRTP = p.ts ∧ (s.feed ps).lastNTP = p.ntp ∧ (s.feed ps).lastSystem = p.now := by
+  have h := SR.feed_anchor ps s
+  rw [hp] at h
+  exact h
+
+/-- the receiver answers from the last report it processed, whatever came before -/
+theorem receiver_uses_last_report (r : SR.Recv) (srs : List (Nat × UInt32)) (n : Nat) (t ts : UInt32) :
+    (r.feed (srs ++ [(n, t)])).packetNTP ts = (r.processSR n t).packetNTP ts := by
+  rw [SR.recv_uses_last_report, ← SR.processSR_eq]
+
+/-- **history form**: the sender has processed any packets `ps` (latest PTS = DTS packet: `p`), the receiver
+any earlier reports `srs`; a report made at `now` then reaches the receiver.  `PacketNTP` of the timestamp
+`k` ticks from `p.ts` is within `1/rate s + 2 ns` of the writer's `p.ntp + k/rate s`. -/
+theorem packet_ntp_history (rate : Int) (ps : List SR.Pkt) (p : SR.Pkt) (srs : List (Nat × UInt32))
+    (now : Int) (e : Nat) (ts : UInt32) (k : Int)
+    (hp : SR.lastEq ps = some p) (hR : 0 < rate)
+    (hTlo : -2208988800000000000 ≤ p.ntp + (now - p.now))
+    (hThi : p.ntp + (now - p.now) < 2085978496000000000)
+    (hts : (ts.toNat : Int) = ((p.ts.toNat : Int) + k) % 4294967296)
+    (hlo : -2147483648 ≤ k - e) (hhi : k - e < 2147483648)
+    (hqlo : -1000000000 ≤ (now - p.now) * rate - e * 1000000000)
+    (hqhi : (now - p.now) * rate - e * 1000000000 ≤ 1000000000 + rate) :
+    ∃ P : Int,
+      ((SR.Recv.init rate).feed (srs ++ [((((SR.Sender.init rate).feed ps).reportWith now e).ntp,
+                                       (((SR.Sender.init rate).feed ps).reportWith now e).rtp)])).packetNTP ts = some P ∧
+      -(1000000000 + 2 * rate) < rate * (P - p.ntp) - k * 1000000000 ∧
+      rate * (P - p.ntp) - k * 1000000000 < 1000000000 + 2 * rate :=
+  SR.packet_ntp_history rate ps p srs now e ts k hp hR hTlo hThi hts hlo hhi hqlo hqhi
+
+example : SR.lastEq [⟨4294967290, 1700000000000000000, true, 5000000000, 7, 100⟩, ⟨3000, 5, false, 6, 7, 8⟩]
+    = some ⟨4294967290, 1700000000000000000, true, 5000000000, 7, 100⟩ := by decide
 
 end Rtsp.C15
